@@ -317,6 +317,7 @@ static void build_ops(void) {
     for (int k = 0; k < U; k++) for (int v = 0; v < NV; v++) OPS[NOPS++] = (op_t){OP_PUT, k, v, 0, 0, is_strcfg() ? "qtreetbl_put" : "qtreetbl_putobj"};
     for (int k = 0; k < U; k++) OPS[NOPS++] = (op_t){OP_REMOVE, k, 0, 0, 0, is_strcfg() ? "qtreetbl_remove" : "qtreetbl_removeobj"};
     if (!MODE_WALK) { OPS[NOPS++] = (op_t){OP_CLEAR, 0, 0, 0, 0, "qtreetbl_clear"}; return; }
+    OPS[NOPS++] = (op_t){OP_CLEAR, 0, 0, 0, 0, "qtreetbl_clear"};     /* clear() keeps the traversal epoch machinery consistent as well */
     OPS[NOPS++] = (op_t){OP_WALK, 0, 0, 0, 0, "qtreetbl_getnext"};
     OPS[NOPS++] = (op_t){OP_WALK, 0, 0, 0, 1, "qtreetbl_getnext"};
     OPS[NOPS++] = (op_t){OP_ABANDON, 0, 0, 1, 0, "qtreetbl_getnext"};
